@@ -25,6 +25,30 @@ StepClauses(st, prev, w, w2, op) ==
     Fail(op.k \in {"len", "to_2d_array", "slice_index", "slice_value", "to_function"} /\ ~w.yopaque
          /\ ~SeqOK(st.ret, ReadResult(w, op), IF op.k = "to_function" THEN 500 ELSE 50), "impl.read." \o op.k)
 
+(* C08, last sentence: recreate + match after any history of domain operations reproduces the TRANSFORMED averages, i.e. the
+   recorded reference.  Judged on the recorded values like C02 (JPipeline): inside a reference interval the recreated grid is
+   uniform, so the mean under the target rule is a (half-weighted at the ends for the trapezoid rule) sum of the n samples. *)
+F4w(f) == f[1] * f[2]
+RECURSIVE SumF4w(_, _, _)
+SumF4w(s, a, b) == IF a > b THEN 0 ELSE F4w(s[a]) + SumF4w(s, a + 1, b)
+SmallVals(s) == \A i \in 1..Len(s) : IsFinite(s[i]) /\ s[i][2] < 10000000          \* |v| < 1000: sums stay in 32 bits
+PipelineAfterHistoryOK(st, n, trule) ==
+    \A k \in 1..(Len(st.rx) - 1) :
+        LET lo == (k - 1) * n + 1  hi == k * n + 1  target == F4w(st.ry[k])
+        IN IF trule = "rectangle"
+           THEN Abs(SumF4w(st.y, lo, hi - 1) - n * target) <= 2 * n + 2
+           ELSE Abs(F4w(st.y[lo]) + F4w(st.y[hi]) + 2 * SumF4w(st.y, lo + 1, hi - 1) - 2 * n * target) <= 4 * n + 4
+PipelineClause(e, j, wprev2) ==
+    LET st == e.steps[j]  op == st.op
+    IN IF /\ op.k = "integral_match" /\ op.rrule = "rectangle" /\ j > 1
+          /\ e.steps[j - 1].op.k = "recreate" /\ e.steps[j - 1].outcome = "ok"
+          /\ Len(st.x) = (Len(st.rx) - 1) * e.steps[j - 1].op.n + 1 /\ Len(st.y) = Len(st.x) /\ e.steps[j - 1].op.n <= 64
+          /\ SmallVals(st.y) /\ SmallVals(st.ry)
+          \* the recreated grid is the n-fold refinement of the reference grid (the series was not reshaped before)
+          /\ \A k \in 1..Len(st.rx) : NearFF(st.x[(k - 1) * e.steps[j - 1].op.n + 1], st.rx[k], Tol)
+       THEN IF PipelineAfterHistoryOK(st, e.steps[j - 1].op.n, op.trule) THEN {} ELSE {"C08.pipeline_after_history"}
+       ELSE {}
+
 RECURSIVE WH(_, _, _, _)
 WH(e, j, w, prev) ==
     IF j > Len(e.steps) THEN {}
@@ -36,7 +60,7 @@ WH(e, j, w, prev) ==
                  (IF st.outcome = "ValueError" /\ st.frame THEN WH(e, j + 1, w, prev) ELSE {})
             ELSE IF st.outcome # "ok" THEN {"impl.valid_operation_failed." \o op.k}
             ELSE LET w2 == Apply(w, op)
-                     cl == StepClauses(st, prev, w, w2, op)
+                     cl == StepClauses(st, prev, w, w2, op) \cup PipelineClause(e, j, w)
                  IN \* once the recorded state differs from the specification's (drift, e.g. a bound that coincides with a
                     \* non-dyadic sample and is resolved differently in floating point) the scope / refusal decisions of
                     \* the specification no longer apply to the real object: the rest of the history is not judged
